@@ -165,7 +165,7 @@ COMPOUND = [
     S("while", "while T({e1}, {p}):", bodies=1, loop=True),
     S("while-walrus", "while ({n1} := T({e1}, {p})):", bodies=1, loop=True),
     S("try-except", "try:", bodies=2, body_heads=["except ERR as {n1}:"]),
-    S("try-except-noname", "try:", bodies=2, body_heads=["except ERR:"], tier="thorough"),
+    S("try-except-noname", "try:", bodies=2, body_heads=["except ERR:"]),
     S("try-except-cur", "try:", bodies=2, body_heads=["except ERR as {p}:"], tier="thorough"),
     S("try-finally", "try:", bodies=2, body_heads=["finally:"]),
     S("try-except-else", "try:", bodies=3, body_heads=["except ERR as {n1}:", "else:"], tier="thorough"),
